@@ -577,6 +577,8 @@ impl Campaign for C16 {
         let progress = AtomicU64::new(0);
         let idle: Vec<AtomicU64> = (0..workers).map(|_| AtomicU64::new(0)).collect();
         let committed = AtomicUsize::new(0);
+        // number of boundaries for which the commit thread has *finished* releasing the successor
+        let released = AtomicUsize::new(0);
         let profile = component_profile(&mut r, &[obs::Class::Dep], 0);
         obs().begin_run(&profile, r.next());
         let seeds: Vec<u64> = (0..workers + 1).map(|_| r.next()).collect();
@@ -707,7 +709,7 @@ impl Campaign for C16 {
             }
             // commit thread: publishes the boundary, then releases the successor
             {
-                let (deps, txs, clock, stop, progress, committed) = (&deps, &txs, &clock, &stop, &progress, &committed);
+                let (deps, txs, clock, stop, progress, committed, released) = (&deps, &txs, &clock, &stop, &progress, &committed, &released);
                 let seed = seeds[workers];
                 hs.push(s.spawn(move || {
                     let mut tr = Rng::new(seed);
@@ -723,6 +725,7 @@ impl Campaign for C16 {
                             committed.store(c + 1, Ordering::Release);
                             jitter(&mut tr);
                             deps.commit(c);
+                            released.store(c + 1, Ordering::Release);
                             log.push((clock.tick(), DepEv::Commit { tx: c }));
                             progress.fetch_add(1, Ordering::Relaxed);
                             c += 1;
@@ -737,7 +740,7 @@ impl Campaign for C16 {
             }
             // stall watchdog (logical): every worker idle for a long streak and no progress
             {
-                let (stop, progress, idle, stalled, committed, txs) = (&stop, &progress, &idle, &stalled, &committed, &txs);
+                let (stop, progress, idle, stalled, committed, txs, deps, released) = (&stop, &progress, &idle, &stalled, &committed, &txs, &deps, &released);
                 s.spawn(move || {
                     let mut last = progress.load(Ordering::Relaxed);
                     let mut same = 0;
@@ -752,9 +755,26 @@ impl Campaign for C16 {
                         // the commit head must itself be waiting for an execution nobody performs;
                         // an executed head (committer or validator merely not scheduled yet) or an
                         // executing one is progress about to happen, not a stall
+                        // Decided on logical state only (a loaded machine may leave a runnable
+                        // thread unscheduled for milliseconds): the commit head needs an execution,
+                        // nobody is executing anything, and `next()` can never hand the head out
+                        // again (not onboard, or blocked, or the cursor already passed it).
                         let c = committed.load(Ordering::Acquire);
-                        let head_needs_exec = c < txs.len() && matches!(txs[c].lock().st, St::Initial | St::Conflict);
-                        if now == last && all_idle && head_needs_exec {
+                        let mut head_unclaimable = false;
+                        // (the commit thread publishes the boundary and only then releases the
+                        // successor: until that release has finished it is about to make progress)
+                        if c < txs.len() && released.load(Ordering::Acquire) == c {
+                            let head = txs[c].lock();
+                            if matches!(head.st, St::Initial | St::Conflict) {
+                                let (states, _) = deps.dump();
+                                if let Some(Some((onboard, dependency))) = states.get(c) {
+                                    head_unclaimable = !*onboard || dependency.is_some() || deps.index() > c;
+                                }
+                            }
+                            drop(head);
+                        }
+                        let nobody_executing = txs.iter().all(|t| t.lock().st != St::Executing);
+                        if now == last && all_idle && head_unclaimable && nobody_executing {
                             same += 1;
                         } else {
                             same = 0;
@@ -933,7 +953,7 @@ impl Campaign for C17 {
                         stable = 0;
                     }
                 }
-                let expired = if cfg!(miri) { stable > 400 } else { start.elapsed() > Duration::from_millis(1500) };
+                let expired = if cfg!(miri) { stable > 400 } else { start.elapsed() > Duration::from_millis(5000) };
                 if expired {
                     let parked = obs().parked.iter().any(|p| p.load(Ordering::Relaxed) > 0);
                     if parked && state.load(Ordering::Acquire) >= target {
